@@ -99,9 +99,9 @@ func c11Scenario(sp c11Spec) *explore.Scenario {
 				// from here on the fault may strike at any moment
 				switch spec.Fault {
 				case "writefault":
-					st.srv.FaultyWrites = true
+					st.srv.SetFaulty(false, true)
 				case "readfault":
-					st.srv.FaultyReads = true
+					st.srv.SetFaulty(true, false)
 				case "cancel":
 					vsched.Go("cancel-serving", func() { st.cancel() })
 				}
